@@ -206,6 +206,26 @@ func checkOne(src string, o prog.Options) (diff string, ran bool, nontrivial boo
 	if err != nil {
 		return "second CompiledProgram failed: " + err.Error(), true, true
 	}
+	// A program read from a buffer must not depend on the buffer afterwards:
+	// the host reuses it (here: overwritten in place, reset and refilled).
+	own := append([]byte(nil), b1.Bytes()...)
+	buf := bytes.NewBuffer(own)
+	p4, err := starlark.CompiledProgram(buf)
+	if err != nil {
+		return "CompiledProgram(*bytes.Buffer) failed: " + err.Error(), true, true
+	}
+	for i := range own {
+		own[i] = 0xAA
+	}
+	buf.Reset()
+	buf.WriteString(strings.Repeat("\xaa", len(own)))
+	if d := diffObs(a, execute(p4)); d != "" {
+		return "a program read from a *bytes.Buffer changed when the host reused the buffer: " + d, true, true
+	}
+	var b4 bytes.Buffer
+	if err := p4.Write(&b4); err != nil || !bytes.Equal(b4.Bytes(), b1.Bytes()) {
+		return fmt.Sprintf("a program read from a *bytes.Buffer re-encodes differently after the host reused the buffer (err=%v)", err), true, true
+	}
 	for i, q := range []*starlark.Program{p, p2, p3} {
 		if d := diffObs(a, execute(q)); d != "" {
 			return fmt.Sprintf("execution number 2 of the %s program differs from the first: %s", []string{"original", "reloaded", "freshly reloaded"}[i], d), true, true
